@@ -42,6 +42,13 @@ CHECKS = {
         technique="Lean 4 theorems about a hand-written executable model + exact differential correspondence",
         ref="DESIGN.md §5 C07",
     ),
+    "C02": dict(
+        category="proof",
+        text="For every initial labelling, every list of periodic boundary pairs (any shape, dimension, periodicity) and every cell list: after the merging loop two mask cells carry the same label iff they are connected through initial clusters and boundary pairs (mergeLoop_partition, EqvGen closure), the stored volume of a surviving label is the cell count of its cluster (mergeLoop_volume), and for a component admitting a consistent integer lift (= not winding) the stored position is the centre of mass of the unwrapped component up to whole periods (C02_position_nonwinding). Proved by three loop invariants (labels = quotient; sums over clusters; tracked shifts agree with any consistent lift) over a pointwise executable model of the loop, which runs against the real locate_droplets_in_mask on ALL binary images of small grids x all periodicity masks plus random shaped images; no-overlap / dropped-only-if-dominated are C10's theorems applied to the candidates. This reasoning exposed defect D1 (fixed in /repo a636831; the witness is in the corpus and as a decide-checked example).",
+        note="Trusted: Lean kernel; propext/Classical.choice/Quot.sound; scipy.ndimage.label = raster-ordered face-connected labelling (monitored against an independent BFS every case), center_of_mass/sum (float vs exact rational, compared to 1e-9 L); grid.transform/normalize_point applied in the harness; the cylindrical clause of the property is decided under C01/C09 machinery.",
+        technique="Lean 4 invariant proofs about a hand-written executable model + exhaustive differential correspondence + independent oracle",
+        ref="DESIGN.md §5 C02",
+    ),
 }
 
 NOT_APPLICABLE = {}
